@@ -14,7 +14,7 @@ def run(ctx):
                 "data; an overshoot is reported only if it survives an exact rational re-solve of the assembled system; non-trivial = N>=2 on every axis")
     ctx.prove("C07")
     from suites import symsuite
-    run_suites(ctx, ["symbolic"], runner=symsuite.run_suite, relevant=symsuite.relevant_for(['diffusion', 'upwind', 'linsource', 'transientM', 'transientR']))
+    run_suites(ctx, ["symbolic"], runner=symsuite.run_suite, relevant=symsuite.relevant_for(['diffusion', 'upwind', 'linsource', 'transientM', 'transientR', 'solveL', 'solveR']))
     run_suites(ctx, ["diffusion", "conv_upwind"])
     run_suites(ctx, ["bc_rows"], runner=bcsuite.run_suite)
     run_suites(ctx, ["solve"], runner=solvesuite.run_suite)
